@@ -36,6 +36,9 @@ FAMILIES = {
                                        ('IndInv => L2Increasing /\\ TimeMonotone /\\ FinalPrefix', 'IndInit', 'Structure', 0),
                                        ("IndInv /\\ Next => FinalStays (final outputs are never deleted or un-finalized)", 'IndInit', 'FinalStays', 1)],
                           invariants=['IndInv', 'Structure', 'FinalStays'], properties=[], timeout=dict(quick=300, thorough=600)),
+    # ---- the same fragment with no bound at all, proved with the TLA+ proof system --------------------
+    'l1.oracle-proof': dict(kind='tlaps', module='OutputOracleProof', theorems=['InitInv', 'NextInv', 'StructureHolds', 'FinalIrreversible', 'Safety'],
+                            invariants=['IndInv', 'Structure', 'FinalStays'], properties=[], timeout=dict(quick=300, thorough=600)),
     # ---- both chains + off-chain roles (Bridge.tla) --------------------------------------------
     'br.one': dict(module='MC_Bridge', fam='one', walker='bridge-walk', scale=U63,
                    invariants=['Inv_Solvency', 'Inv_Completeness', 'Inv_NoStuck', 'Inv_Holdings', 'Inv_DrainedOK'], properties=[],
@@ -98,13 +101,13 @@ PROPERTIES = {
     'C02': dict(traces=['l1'], families=['l1.claims'], title='withdrawal paid at most once'),
     'C03': dict(traces=['l1'], families=['l1.claims'], title='withdrawals cannot be forged'),
     'C04': dict(traces=['br'], families=['br.one', 'l1.trees'], title='every recorded withdrawal can be claimed'),
-    'C05': dict(traces=['l1'], families=['l1.oracle', 'l1.window', 'l1.oracle-ind'], title='challenge window / finality'),
+    'C05': dict(traces=['l1'], families=['l1.oracle', 'l1.window', 'l1.oracle-ind', 'l1.oracle-proof'], title='challenge window / finality'),
     'C06': dict(traces=['l2'], families=['l2.relay', 'l2.deposit'], title='L2 credits each deposit exactly once, in order'),
     'C07': dict(traces=['l2'], families=['l2.deposit'], title='deposit neither lost nor blocking; hooks contained'),
     'C08': dict(traces=['br'], families=['br.one', 'br.live'], title='end-to-end solvency'),
     'C09': dict(traces=['l2'], families=['l2.deposit'], title='L2 bridged supply conserved'),
     'C10': dict(traces=['l1'], families=['l1.ledger'], title='L1 deposit sequences / events'),
-    'C11': dict(traces=['l1'], families=['l1.oracle', 'l1.ledger', 'l1.oracle-ind'], title='output oracle log structure'),
+    'C11': dict(traces=['l1'], families=['l1.oracle', 'l1.ledger', 'l1.oracle-ind', 'l1.oracle-proof'], title='output oracle log structure'),
     'C12': dict(traces=['l1', 'l2'], families=['l1.auth', 'l2.auth', 'val.valset', 'val.plan'], title='authorization'),
     'C13': dict(traces=['val'], families=['val.valset'], title='validator set equals what the engine was told'),
     'C14': dict(traces=['val'], families=['val.plan'], title='executor change plan'),
